@@ -5,4 +5,11 @@ cd /verif/coq || exit 2
 [ -f theories/All.vo ] || timeout 1800 coqc -noglob -Q theories PV theories/All.v >/dev/null || exit 2
 ( echo "coqchk -silent -o -Q theories PV PV.All   ($(date -u +%Y-%m-%dT%H:%MZ), $(coqc --version | head -1))"; \
   /usr/bin/time -v timeout 7200 coqchk -silent -o -Q theories PV PV.All 2>&1 | grep -v "^\s*$" | grep -E "CONTEXT|=====|Theory|Axioms|Constants|Inductives|<none>|Maximum resident|Elapsed|Error|error|rror:" ) > /verif/notes/coqchk_all.txt 2>&1
+# Link files that load a float-decoding comparator (see tools/gen_all_v.py SEPARATE): re-checked on their own; the primitive
+# Int63 / PrimFloat declarations of Coq's standard library are listed by coqchk for them (kernel primitives, not axioms of
+# this development; Print Assumptions of every theorem in these files: Closed under the global context).
+for m in PV.C08.LinkTie; do
+( echo; echo "coqchk -silent -o -Q theories PV $m   ($(date -u +%Y-%m-%dT%H:%MZ))"; \
+  timeout 7200 coqchk -silent -o -Q theories PV $m 2>&1 | grep -v "^\s*$" | sed -n '/CONTEXT SUMMARY/,$p' ) >> /verif/notes/coqchk_all.txt 2>&1
+done
 cat /verif/notes/coqchk_all.txt
